@@ -3,6 +3,7 @@ package props
 import (
 	"fmt"
 	"reflect"
+	"sort"
 
 	"github.com/llir/llvm/asm"
 	"github.com/llir/llvm/ir"
@@ -271,4 +272,115 @@ func c18runCarriers(c *fw.Check, et EnumType, name string, v uint64, carriers []
 			c.Violation("carrier/"+et.Name+"@"+where+"/"+bad+"/"+name, cs)
 		}
 	}
+}
+
+// c18pairs: two enum fields of ONE entity set together (a printer that derives one keyword from the
+// others -- "dso_local is implied by internal linkage" -- shows only in combinations). For globals,
+// function declarations and definitions, aliases and ifuncs: every pair of enum-typed fields x every
+// pair of defined non-zero values; both must come back. Combinations LLVM rejects are skipped.
+func c18pairs(c *fw.Check) {
+	entities := append([]c18carrier{{"global", func() (*ir.Module, interface{}) {
+		m := ir.NewModule()
+		g := m.NewGlobalDef("g", constant.NewInt(types.I32, 0))
+		return m, g
+	}, func(m *ir.Module) interface{} {
+		if len(m.Globals) != 1 {
+			return nil
+		}
+		return m.Globals[0]
+	}}}, c18carriers()[:4]...)
+	vals := map[string][]EnumConst{}
+	for _, et := range EnumTable {
+		seen := map[uint64]bool{}
+		for _, k := range et.Consts {
+			if k.Value != 0 && !seen[k.Value] {
+				seen[k.Value] = true
+				vals[et.Name] = append(vals[et.Name], k)
+			}
+		}
+	}
+	type fld struct {
+		enum string
+		idx  int
+		name string
+	}
+	var jobs []func()
+	npairs := 0
+	for _, ent := range entities {
+		ent := ent
+		_, probe := ent.build()
+		var fs []fld
+		var names []string
+		for en := range c18enumGoTypes {
+			names = append(names, en)
+		}
+		sort.Strings(names)
+		for _, en := range names {
+			for _, idx := range c18fieldsOf(probe, c18enumGoTypes[en]) {
+				f := reflect.TypeOf(probe).Elem().Field(idx)
+				if f.Type.Kind() == reflect.Slice {
+					continue
+				}
+				fs = append(fs, fld{en, idx, f.Name})
+			}
+		}
+		for a := 0; a < len(fs); a++ {
+			for b := a + 1; b < len(fs); b++ {
+				fa, fb := fs[a], fs[b]
+				for _, va := range vals[fa.enum] {
+					for _, vb := range vals[fb.enum] {
+						va, vb := va, vb
+						npairs++
+						jobs = append(jobs, func() {
+							var text string
+							var ga, gb uint64
+							var oka, okb bool
+							var perr error
+							p := fw.Try(func() {
+								m, e := ent.build()
+								c18setField(e, fa.idx, va.Value)
+								c18setField(e, fb.idx, vb.Value)
+								text = m.String()
+								m2, err := asm.ParseString("c18.ll", text)
+								if err != nil {
+									perr = err
+									return
+								}
+								e2 := ent.locate(m2)
+								ga, oka = c18getField(e2, fa.idx)
+								gb, okb = c18getField(e2, fb.idx)
+							})
+							c.Case(fmt.Sprintf("pair|%s|%s=%d|%s=%d", ent.name, fa.name, va.Value, fb.name, vb.Value), text)
+							bad, what := "", ""
+							switch {
+							case p != "":
+								bad, what = "panic", p
+							case perr != nil:
+								bad, what = "reparse-error", perr.Error()
+							case !oka || !okb:
+								bad, what = "lost", "entity not found in the re-parsed module"
+							case ga != va.Value:
+								bad, what = "changed/"+va.Name+"-with-"+vb.Name, fmt.Sprintf("%s came back as %d", fa.name, ga)
+							case gb != vb.Value:
+								bad, what = "changed/"+vb.Name+"-with-"+va.Name, fmt.Sprintf("%s came back as %d", fb.name, gb)
+							}
+							if bad == "" {
+								c.Valid(1)
+								return
+							}
+							if text != "" && fw.HaveLLVM() {
+								if okL, _ := fw.LLVMAccepts(text); !okL {
+									c.Invalid++
+									return
+								}
+							}
+							c.Violation("pair/"+ent.name+"/"+bad, c18case{Type: fa.enum + "+" + fb.enum + "@" + ent.name, Const: va.Name + "+" + vb.Name, Value: va.Value, Text: fw.Trunc(text, 400), What: what})
+						})
+					}
+				}
+			}
+		}
+	}
+	fw.ParallelFor(len(jobs), func(i int) { jobs[i]() })
+	c.Extra["enum_field_pairs_on_one_entity"] = npairs
 }
